@@ -244,6 +244,61 @@ func main() {
 	}
 	wg.Wait()
 
+	// One history over its own, larger header pool: appends of a whole
+	// headers message (more entries than any internal chunking of the index
+	// transaction would use), one of them with the second database update
+	// from its start failing (a no-op while the append is one transaction).
+	const bigID, bigN = 860, 4500
+	var big History
+	var bigPool *storeh.Pool
+	if replay == nil {
+		bigPool = storeh.NewPool(2*bigN+300, gf)
+		mk := func(from, cnt, ht int64, fault string) Op {
+			op := Op{Kind: "bwrite", WF: true, Fault: fault}
+			for t := from; int64(len(op.Es)) < cnt; t++ {
+				if t == bigPool.Genesis {
+					continue
+				}
+				op.Es = append(op.Es, storeh.Ent{A: t, B: ht})
+				ht++
+			}
+			return op
+		}
+		first := mk(1, bigN, 1, "db2")
+		bh := History{ID: bigID, Ops: []Op{first}}
+		probe := func(op *Op) {
+			bh.Ops = append(bh.Ops, Op{Kind: "qbtip", WF: true}, Op{Kind: "qlatest", WF: true})
+			for _, i := range []int{0, 1, 999, 1000, 1999, 2000, 2001, 4095, 4096, len(op.Es) - 1} {
+				t := op.Es[i].A
+				bh.Ops = append(bh.Ops, Op{Kind: "qheightof", X: t, WF: true}, Op{Kind: "qbhash", X: t, WF: true},
+					Op{Kind: "qbheight", N: op.Es[i].B, WF: true}, Op{Kind: "qbanc", N: 1, X: t, WF: true})
+			}
+		}
+		probe(&first)
+		second := mk(first.Es[len(first.Es)-1].A+1, bigN, bigN+1, "")
+		bh.Ops = append(bh.Ops, second)
+		probe(&second)
+		bh.Ops = append(bh.Ops, Op{Kind: "reopen", WF: true})
+		probe(&first)
+		probe(&second)
+		big, _, _ = runOne(bigID, a.Seed, 0, base, bigPool, &bh)
+		var sb strings.Builder
+		sb.WriteString("From Coq Require Import ZArith List.\nFrom Verif Require Import S1.Model C07.Replay.\nImport ListNotations.\nOpen Scope Z_scope.\n")
+		sb.WriteString(fmt.Sprintf("Definition genesis : Z := %d.\nDefinition gfh : Z := %d.\n", bigPool.Genesis, bigPool.GenesisFilter))
+		var items []string
+		for j := range big.Ops {
+			if big.Ops[j].Panic != "" {
+				break
+			}
+			items = append(items, c.Pair(storeh.OpTerm(&big.Ops[j]), big.Ops[j].Obs))
+		}
+		sb.WriteString("Definition cases : list (Z * list (op * obs)) := [\n" + c.Pair(c.Z(bigID), c.List(items)))
+		sb.WriteString("].\nDefinition R := Eval vm_compute in (run_cases genesis gfh cases).\nSet Printing Width 1000000.\nSet Printing Depth 1000000.\nPrint R.\n")
+		c.WriteFile(filepath.Join(a.Out, "cases_big.v"), sb.String())
+		hs = append(hs, big)
+		sigs = append(sigs, "big")
+	}
+
 	shard := 0
 	const perShard = 150
 	distinct := c.Signatures{}
